@@ -20,8 +20,9 @@ def probeDue (lastThrottled : Option Nat) (now : Nat) : Bool :=
 /-- threshold of the draw under total failure: `(n-5)/(n+1)` -/
 def totalFailureRatio (n : Nat) : Rat := (((n : Int) - 5 : Int) : Rat) / ((n + 1 : Nat) : Rat)
 
-/-- the visible window shows total failure: nothing accepted, no working bucket, more than 5 calls -/
-def totalFailure (h : WinRes) : Prop := h.accepts = 0 ∧ h.workingBuckets = 0 ∧ h.total > 5
+/-- the window shows total failure: nothing accepted, more than 5 calls.  (Then no bucket can be a "working"
+bucket — `summarize_wb` — so the monitor does not need, and does not trust, the implementation's bucket classes.) -/
+def totalFailure (h : WinRes) : Prop := h.accepts = 0 ∧ h.total > 5
 
 instance (h : WinRes) : Decidable (totalFailure h) := by unfold totalFailure; exact inferInstance
 
@@ -31,7 +32,10 @@ The monitor keeps its own log of what every call *should* have recorded (rejecte
 failure by the acceptability predicate) stamped with the aligned 250 ms bucket index of the call time, and
 counts "the calls recorded in the preceding 10 s window" from that log: the current bucket and the 39 before. -/
 
-def bucketIdx (t0 t : Nat) : Nat := (t - t0) / intervalNs
+/-- aligned bucket number of time `t` in a window of `d`-ns buckets created at `t0` (any geometry) -/
+def bucketIdxD (d t0 t : Nat) : Nat := (t - t0) / d
+
+def bucketIdx (t0 t : Nat) : Nat := bucketIdxD intervalNs t0 t
 
 def inWindow (cur idx : Nat) : Bool := idx ≤ cur ∧ cur < idx + nBuckets
 
